@@ -184,8 +184,8 @@ def run(ctx):
         cases = list(box(6, 5, 8, 120))
         n_hyp = 800
     else:
-        cases = list(box(8, 6, 16, 300))
-        n_hyp = 8000
+        cases = list(box(10, 8, 24, 400))
+        n_hyp = 40000
     ctx.note('box_cases', len(cases))
     ctx.exhaustive = True
     ctx.run_cases(cases, chunk=200)
